@@ -278,3 +278,112 @@ Example C09_ex_vendor_wire :
   /\ vwire_of (GALoadConfiguration (lit "cli"%string) (ok_ds "ftp://h/cfg") (Some None) None) = [WUrl]
   /\ vwire_of (GALoadConfiguration (lit "json"%string) (ok_ds "ftp://h/cfg") (Some None) None) = [].
 Proof. repeat split; vm_compute; reflexivity. Qed.
+
+(* ================= order of calls: the object built before / after the <hello> exchange ================= *)
+(* The operation classes are public; an application may build `Commit(session, device_handler)` (or any other class) on a
+   Session it connects only afterwards (`server_capabilities` is None until the server's <hello> is parsed), and call
+   request() once connected.  [perform_at s0 s c]: the object is built at moment [s0] ([None] = before the <hello>,
+   [Some s] = on the connected session — what Manager.execute does), request() runs on the connected session [s].
+   [moment_of s s0]: s0 is one of these two. *)
+From NC Require Import Proofs.OrderProofs.
+
+(* A documented dependency is not advertised: whatever the moment the object was built, the history ends in an
+   exception and nothing is sent.  The exception is MissingCapabilityError — or the TypeError of a construction
+   attempted while the capabilities were unknown (class with DEPENDS), which leaves nothing registered. *)
+Theorem C09_order_refused : forall (uris : list bytes) (s0 : option sess) (c : call) (k : bytes),
+  moment_of (SCaps (caps_of uris)) s0 -> In k (needs c) -> ~ advertised uris k ->
+  exists e, snd (perform_at s0 (SCaps (caps_of uris)) c) = Exn e
+            /\ count_send (fst (perform_at s0 (SCaps (caps_of uris)) c)) = 0%nat
+            /\ (wellformed c = true ->
+                e = MissingCapability \/ (s0 = None /\ e = TypeError /\ fst (perform_at s0 (SCaps (caps_of uris)) c) = [])).
+Proof. exact c09_order_refused. Qed.
+Print Assumptions C09_order_refused.
+
+(* Wire reading: a request that was sent carries no construct whose capability the server did not advertise, and every
+   documented need of the call was advertised — whenever the object was built. *)
+Theorem C09_order_wire_backed : forall (uris : list bytes) (s0 : option sess) (c : call) (w : wire) (k : bytes),
+  moment_of (SCaps (caps_of uris)) s0 -> snd (perform_at s0 (SCaps (caps_of uris)) c) = Sent ->
+  In w (wire_of c) -> In k (wire_needs w) -> advertised uris k.
+Proof. exact c09_order_wire_backed. Qed.
+Print Assumptions C09_order_wire_backed.
+
+Theorem C09_order_sent_needs : forall (uris : list bytes) (s0 : option sess) (c : call) (k : bytes),
+  moment_of (SCaps (caps_of uris)) s0 -> snd (perform_at s0 (SCaps (caps_of uris)) c) = Sent ->
+  In k (needs c) -> advertised uris k.
+Proof. exact c09_order_sent_needs. Qed.
+Print Assumptions C09_order_sent_needs.
+
+Theorem C09_order_sent_mode : forall (uris : list bytes) (s0 : option sess) (c : call) (norm : bytes),
+  moment_of (SCaps (caps_of uris)) s0 -> snd (perform_at s0 (SCaps (caps_of uris)) c) = Sent ->
+  wd_of c = Some norm -> wd_accepts uris norm.
+Proof. exact c09_order_sent_mode. Qed.
+Print Assumptions C09_order_sent_mode.
+
+(* Everything advertised: an object built on the connected session — or built early by a class without DEPENDS, whose
+   checks all sit in request() — sends its request, once. *)
+Theorem C09_order_allowed : forall (uris : list bytes) (s0 : option sess) (c : call),
+  moment_of (SCaps (caps_of uris)) s0 -> (s0 = None -> class_deps c = []) ->
+  wellformed c = true -> (forall k, In k (needs c) -> advertised uris k) ->
+  (forall norm, wd_of c = Some norm -> wd_accepts uris norm /\ xml_chars_ok norm = true) ->
+  snd (perform_at s0 (SCaps (caps_of uris)) c) = Sent
+  /\ count_send (fst (perform_at s0 (SCaps (caps_of uris)) c)) = 1%nat.
+Proof. exact c09_order_allowed. Qed.
+Print Assumptions C09_order_allowed.
+
+(* Whatever the two sessions (any capabilities at construction, any at request): an exception means no send. *)
+Theorem C09_order_send_once : forall (s0 : option sess) (s : sess) (c : call),
+  match snd (perform_at s0 s c) with
+  | Sent => count_send (fst (perform_at s0 s c)) = 1%nat
+  | Exn _ => count_send (fst (perform_at s0 s c)) = 0%nat
+  end.
+Proof. exact c09_order_send_once. Qed.
+Print Assumptions C09_order_send_once.
+
+(* The vendor classes (no DEPENDS; their checks sit in request()): the moment of construction changes nothing. *)
+Theorem C09_order_vendor_same : forall (s0 : option sess) (s : sess) (c : vgcall),
+  moment_of s s0 -> vperform_at s0 s c = vperform s c.
+Proof. exact vperform_at_same. Qed.
+Print Assumptions C09_order_vendor_same.
+
+Theorem C09_order_vendor_refused : forall (uris : list bytes) (s0 : option sess) (c : vgcall) (k : bytes),
+  moment_of (SCaps (caps_of uris)) s0 -> In k (vneeds c) -> ~ advertised uris k ->
+  exists e, snd (vperform_at s0 (SCaps (caps_of uris)) c) = Exn e
+            /\ count_send (fst (vperform_at s0 (SCaps (caps_of uris)) c)) = 0%nat
+            /\ (vwellformed c = true -> e = MissingCapability).
+Proof. exact c09_order_vendor_refused. Qed.
+Print Assumptions C09_order_vendor_refused.
+
+Theorem C09_order_vendor_wire_backed : forall (uris : list bytes) (s0 : option sess) (c : vgcall) (w : wire) (k : bytes),
+  moment_of (SCaps (caps_of uris)) s0 -> snd (vperform_at s0 (SCaps (caps_of uris)) c) = Sent ->
+  In w (vwire_of c) -> In k (wire_needs w) -> advertised uris k.
+Proof. exact c09_order_vendor_wire_backed. Qed.
+Print Assumptions C09_order_vendor_wire_backed.
+
+(* ---------------- non-vacuity ---------------- *)
+(* a commit object built before the <hello>: the construction fails, nothing registered; built on the connected session
+   without :candidate: MissingCapabilityError; both moments satisfy the hypotheses of C09_order_refused *)
+Example C09_ex_order_early :
+  let S0 := SCaps (caps_of ex_uris_nourl) in
+  perform_at None S_ex (CCommit VStd false false false false None None) = ([], Exn TypeError)
+  /\ perform_at None (SCaps (caps_of [])) (CCommit VJunos false false false false None None) = ([], Exn TypeError)
+  /\ perform_at None (SCaps (caps_of [])) (CValidate (SrcDs (ok_ds "running"))) = ([], Exn TypeError)
+  /\ perform_at None (SCaps (caps_of [])) CDiscardChanges = ([], Exn TypeError)
+  /\ perform_at None (SCaps (caps_of [])) (CCreateSubscription None) = ([], Exn TypeError)
+  /\ perform_at (Some (SCaps (caps_of []))) (SCaps (caps_of [])) CDiscardChanges = ([EvAssert s_k_candidate], Exn MissingCapability)
+  /\ moment_of S0 None /\ moment_of S0 (Some S0)
+  /\ In s_k_candidate (needs CDiscardChanges) /\ ~ advertised [] s_k_candidate.
+Proof.
+  cbv zeta. split; [vm_compute; reflexivity|]. split; [vm_compute; reflexivity|]. split; [vm_compute; reflexivity|].
+  split; [vm_compute; reflexivity|]. split; [vm_compute; reflexivity|]. split; [vm_compute; reflexivity|].
+  split; [now left|]. split; [now right|]. split; [vm_compute; auto|].
+  apply absent_iff; vm_compute; reflexivity.
+Qed.
+
+(* a class without DEPENDS built early: its request() checks run against the capabilities of the connected session *)
+Example C09_ex_order_early_nodeps :
+  perform_at None (SCaps (caps_of ex_uris_nourl)) (CDeleteConfig (ok_ds "ftp://h/x")) = ([EvRegister; EvAssert s_k_url], Exn MissingCapability)
+  /\ perform_at None S_ex (CDeleteConfig (ok_ds "ftp://h/x")) = ([EvRegister; EvAssert s_k_url; EvSend], Sent)
+  /\ class_deps (CDeleteConfig (ok_ds "ftp://h/x")) = []
+  /\ vperform_at None (SCaps (caps_of ex_uris_nourl)) (GHGetBulkConfig (ok_ds "file:///x") None) = ([EvRegister; EvAssert s_k_url], Exn MissingCapability)
+  /\ vperform_at None S_ex (GHGetBulkConfig (ok_ds "file:///x") None) = ([EvRegister; EvAssert s_k_url; EvSend], Sent).
+Proof. repeat split; vm_compute; reflexivity. Qed.
